@@ -501,3 +501,118 @@ Example C16_reservoir_example :
   length (sc_samples (r_sc N m)) = N.to_nat 8096 /\ nth 5 (sc_samples (r_sc N m)) 0%Z = 7%Z
   /\ er N m = mkSc 8097 7 0 7 0 [] /\ r_rng N m = 6%N.
 Proof. repeat split; vm_compute; reflexivity. Qed.
+
+(* ================================================================ extension (round 7): the request context *)
+
+(* One shard under a request context expiring at d (replicas whose answer becomes available at a logical
+   time, or never; searchShard started at t): once the context is done every remaining replica fails at once
+   (the shard fails at that very time); a shard that ends with anything but a plain failure — an answer or a
+   special refusal — did so BEFORE the expiry and it is exactly what it does without any deadline, at the
+   same time; a shard whose natural delivery is before the expiry is not touched by the deadline; a shard
+   whose natural delivery is not before the expiry does not deliver an answer. *)
+Theorem C16_deadline_shard : forall d sh t,
+  (cancelled d t = true -> tsearch_shard d t sh = TSR SFail t)
+  /\ (forall r t', tsearch_shard d t sh = TSR r t' -> decisive r = true ->
+        cancelled d t' = false /\ tsearch_shard None t sh = TSR r t')
+  /\ (expires_before d t sh = false -> tsearch_shard d t sh = natural t sh)
+  /\ (expires_before d t sh = true -> delivered_answer d t sh = false).
+Proof.
+  intros d sh t. split; [exact (shard_cancelled d sh t)|]. split; [exact (shard_decisive_natural d sh t)|].
+  split; [exact (shard_not_expired d sh t) | exact (expired_not_delivered d t sh)].
+Qed.
+Print Assumptions C16_deadline_shard.
+
+(* searchStores' receive loop over the ShardResponses in arrival order (by time; ties by the scheduler): a
+   response is built from exactly the answers received; it is flagged partial iff some shard sent a failure
+   (its own, or the context error of a call still running at the expiry) — and then at least one shard
+   answered and at least one did not deliver; it is complete only if EVERY shard delivered its answer. *)
+Theorem C16_deadline_tier : forall prio d t0 shards p qs xs tend,
+  tsearch_stores prio d t0 shards = TT (TOk p qs xs) tend ->
+  let evs := arrival prio (map (fun sh => ev_of (tsearch_shard d t0 sh)) shards) in
+  Permutation evs (map (fun sh => ev_of (tsearch_shard d t0 sh)) shards)
+  /\ qs = answers (map snd evs) /\ xs = extras (map snd evs)
+  /\ p = existsb is_fail (map snd evs)
+  /\ (p = true -> qs <> [] /\ existsb (fun sh => negb (delivered_answer d t0 sh)) shards = true)
+  /\ (p = false -> forallb (delivered_answer d t0) shards = true).
+Proof. exact tier_content. Qed.
+Print Assumptions C16_deadline_tier.
+
+(* Ingestor.Search under a request context, with or without the fetch stage, for EVERY availability pattern
+   of the replicas, every expiry time, every scheduling choice, every time spent before the re-check of the
+   context, every sorting function: a complete-looking response (no error, not flagged partial) is only
+   given when every shard of the deciding tier (the hot tier, or the long-term stores after a wants-old
+   verdict, started when that verdict arrived) delivered, before the expiry, the very answer it gives
+   without any deadline. Hence: if the context expires before every shard of the deciding tier has delivered
+   its answer, the call returns an error or a response flagged partial (or, with no expiry and a store that
+   never answers, does not return) — never a complete-looking response that misses a shard. *)
+Theorem C16_deadline_honest : forall sort p1 p2 d hot hotread cold off size rev itv naggs fetch gap ffail,
+  match tsearch sort p1 p2 d hot hotread cold off size rev itv naggs fetch gap ffail with
+  | TS (SOk false l x) =>
+      exists t0 tier, deciding_tier p1 d hot hotread cold = Some (t0, tier) /\ all_delivered d t0 tier
+  | _ => True
+  end
+  /\ (forall t0 tier, deciding_tier p1 d hot hotread cold = Some (t0, tier) ->
+      existsb (expires_before d t0) tier = true ->
+      honest_outcome (tsearch sort p1 p2 d hot hotread cold off size rev itv naggs fetch gap ffail)).
+Proof. exact deadline_honest. Qed.
+Print Assumptions C16_deadline_honest.
+
+(* The four proxyapi handlers (Search, ComplexSearch — also with size 0 and only hist / aggs —,
+   GetAggregation and GetHistogram, which never reach the fetch stage): a response with partial_response =
+   false or with code NO has both, and is only given when every shard of the deciding tier delivered its
+   answer before the expiry (no shard's natural delivery is at or after the expiry). *)
+Theorem C16_deadline_api_honest : forall sort h p1 p2 d hot hotread cold off size rev itv naggs gap ffail,
+  match tapi_of sort h p1 p2 d hot hotread cold off size rev itv naggs gap ffail with
+  | TA (AResp flag code l x) =>
+      (flag = false \/ code = CNo) ->
+      flag = false /\ code = CNo
+      /\ exists t0 tier, deciding_tier p1 d hot hotread cold = Some (t0, tier) /\ all_delivered d t0 tier
+                         /\ existsb (expires_before d t0) tier = false
+  | _ => True
+  end.
+Proof. exact deadline_api_honest. Qed.
+Print Assumptions C16_deadline_api_honest.
+
+(* ---------------------------------------------------------------- non-vacuity of the request-context extension *)
+(* shard 0 answers at time 1, shard 1 would answer at time 5; the context expires at 3:
+   without fetch (GetAggregation / GetHistogram / size 0) the response is flagged partial and holds shard 0
+   only; with the fetch stage the re-check of the context turns it into an error; with no expiry, or an
+   expiry after both answers, the response is complete. The hypotheses of C16_deadline_honest hold. *)
+Example C16_deadline_example :
+  let hot := [[(0, BOk [(9,0)]%N X0, Some 1)]; [(1, BOk [(8,0)]%N X0, Some 5)]] in
+  tsearch isort true true (Some 3) hot [] [] 0 4 false 0%N 0 false 0 [] = TS (SOk true [((9,0)%N, 0)] X0)
+  /\ tsearch isort true true (Some 3) hot [] [] 0 4 false 0%N 0 true 0 [] = TS (SErr EOther)
+  /\ tsearch isort true true None hot [] [] 0 4 false 0%N 0 true 0 [] = TS (SOk false [((9,0)%N, 0); ((8,0)%N, 1)] X0)
+  /\ tsearch isort true true (Some 6) hot [] [] 0 4 false 0%N 0 true 0 [] = TS (SOk false [((9,0)%N, 0); ((8,0)%N, 1)] X0)
+  /\ tsearch isort true true (Some 6) hot [] [] 0 4 false 0%N 0 true 1 [] = TS (SErr EOther)
+  /\ deciding_tier true (Some 3) hot [] [] = Some (0, hot)
+  /\ existsb (expires_before (Some 3) 0) hot = true
+  /\ tapi_of isort HHist true true (Some 3) hot [] [] 0 0 false 2%N 0 0 [] = TA (AResp true CPartial [] X0)
+  /\ tapi_of isort HAgg true true (Some 3) hot [] [] 0 0 false 0%N 1 0 [] = TA (AResp true CPartial [] (mkX 0 [] [([], 0%Z)] 0))
+  /\ tapi_of isort HComplex true true (Some 3) hot [] [] 0 0 false 2%N 0 0 [] = TA (AResp true CPartial [] X0)
+  /\ tapi_of isort HSearch true true (Some 3) hot [] [] 0 4 false 0%N 0 0 [] = TA (AErr GInternal).
+Proof. repeat split; vm_compute; reflexivity. Qed.
+
+(* the cold fallback shares the request context: the hot verdict (wants-old) arrives at time 2, the
+   long-term store would answer at time 4, the context expires at 3: its first replica fails at the expiry,
+   the second one is asked on a done context and fails at once: error. Expiry at 5: complete. *)
+Example C16_deadline_cold_example :
+  let cold := [[(1, BOk [(8,0)]%N X0, Some 4); (2, BOk [(8,0)]%N X0, Some 1)]] in
+  tsearch isort true true (Some 3) [[(0, BWantsOld, Some 2)]] [] cold 0 4 false 0%N 0 false 0 [] = TS (SErr EOther)
+  /\ tsearch isort true true (Some 5) [[(0, BWantsOld, Some 2)]] [] cold 0 4 false 0%N 0 false 0 [] = TS (SOk false [((8,0)%N, 1)] X0)
+  /\ deciding_tier true (Some 5) [[(0, BWantsOld, Some 2)]] [] cold = Some (2, cold).
+Proof. repeat split; vm_compute; reflexivity. Qed.
+
+(* the seeded two-site variant of searchStores (a shard goroutine does not send its error once the context
+   is done; the cancellation is reported only when nothing at all was received) is NOT honest: shard 1 is
+   still running when the context expires at 3, and the tier answers complete with shard 0 only — while the
+   transcribed code flags that response partial. *)
+Example C16_deadline_two_site_variant_refuted :
+  exists d shards qs xs t,
+    tsearch_stores_m9 true d 0 shards = TT (TOk false qs xs) t
+    /\ existsb (expires_before d 0) shards = true /\ length qs < length shards
+    /\ tsearch_stores true d 0 shards = TT (TOk true qs xs) t.
+Proof.
+  exists (Some 3), [[(0, BOk [(9,0)]%N X0, Some 1)]; [(1, BOk [(8,0)]%N X0, Some 5)]], [(0, [(9,0)]%N)], [X0], 3.
+  repeat split; try (vm_compute; reflexivity); try apply le_n.
+Qed.
